@@ -21,7 +21,9 @@ From Continuum Require Export Model.Base Model.VTable Model.Backfill.
 (* ------------------------------------------------------------------ configuration *)
 Inductive reldir := M2O | O2M | M2M.
 Record relcfg := mkrel { r_dir : reldir; r_local : list nat; r_excl : bool }.
-Record colcfg := mkcol { c_pk : bool; c_excl : bool }.
+(* c_here: the column is stored in the table this (part of a) class writes; false for the columns a
+   joined-table hierarchy keeps in another table: they count for change detection, not as data *)
+Record colcfg := mkcol { c_pk : bool; c_excl : bool; c_here : bool }.
 Record clscfg := mkcls {
   k_versioned : bool;          (* has __versioned__ and option 'versioning'            *)
   k_validity  : bool;          (* option 'strategy' = 'validity'                       *)
@@ -112,7 +114,7 @@ Definition pk_flags (cc : clscfg) : list bool := map c_pk (k_cols cc).
 Definition ver_flags (cc : clscfg) : list bool := map (fun c => negb (c_excl c)) (k_cols cc).
 (* the data columns of the version row: versioned and not part of the key *)
 Definition dat_flags (cc : clscfg) : list bool :=
-  map (fun c => negb (c_excl c) && negb (c_pk c)) (k_cols cc).
+  map (fun c => negb (c_excl c) && negb (c_pk c) && c_here c) (k_cols cc).
 
 Definition key_of (cc : clscfg) (vals : list val) : pk := map vz (proj (pk_flags cc) vals).
 Definition dat_of (cc : clscfg) (vals : list val) : list val := proj (dat_flags cc) vals.
